@@ -68,9 +68,18 @@ def rpo(body):
     return order
 
 
+SIGNIFICANT_STD = ("::eq", "::ne", "::lt", "::le", "::gt", "::ge", "::cmp", "::starts_with", "Option::<T>::insert", "Seek::seek",
+                   "::start_bound", "::end_bound", "Option::<T>::take", "Option::<T>::filter", "FnMut::call_mut", "::to_vec", "mem::transmute")
+
+
 def skeleton(body, rename=lambda s: s):
+    """the ordered (reverse post-order) sequence of *significant* operations of a function: calls to
+    functions of the crate, key comparisons, cursor/source operations, constructions of crate types,
+    each with how its error (if any) is consumed.  Control-flow shape, `?` vs explicit match, drops,
+    temporaries and Option/Result plumbing are deliberately not part of it, so the comparison is
+    insensitive to one-sided syntactic rewrites and sensitive to one-sided changes of what is done."""
+    from .errflow import verdict_at
     order = rpo(body)
-    idx = {b: i for i, b in enumerate(order)}
     out = []
     for bb in order:
         blk = body.blocks[bb]
@@ -80,30 +89,23 @@ def skeleton(body, rename=lambda s: s):
             rv = st["rv"]
             if rv["rv"] == "bin" and rv["op"] in CMP:
                 out.append((("cmp", rename(rv["op"])), Site(bb, i)))
-            elif rv["rv"] == "agg" and rv["ak"] == "adt":
+            elif rv["rv"] == "agg" and rv["ak"] == "adt" and not rv["adt"].startswith(("std::", "core::", "alloc::")):
                 out.append((("agg", rename(rv["adt"].split("::")[-1]), rename(rv["variant"])), Site(bb, i)))
-            elif rv["rv"] == "cast" and rv["ck"].startswith("Transmute"):
+            elif rv["rv"] == "cast" and rv["ck"].startswith("Transmute") and not st["span"].get("macros"):
                 out.append((("transmute",), Site(bb, i)))
         t = blk["term"]
-        k = t["t"]
-        s = Site(bb, None)
-        if k == "call":
+        if t["t"] == "call":
             c = callee_of(t)
-            name = rename(callee_name(c)) if c else "<indirect>"
-            # constant arguments are part of the shape
-            consts = tuple(a.get("int") for a in t["args"] if a["k"] == "const" and "int" in a)
-            out.append((("call", name, consts, idx.get(t["target"], -1)), s))
-        elif k == "switch":
-            arms = tuple(sorted((int(v), idx.get(tb, -1)) for v, tb in t["arms"]))
-            out.append((("switch", arms, idx.get(t["otherwise"], -1)), s))
-        elif k == "goto":
-            out.append((("goto", idx.get(t["target"], -1)), s))
-        elif k == "assert":
-            out.append((("assert", t["kind"], idx.get(t["target"], -1)), s))
-        elif k == "drop":
-            out.append((("drop", idx.get(t["target"], -1)), s))
-        else:
-            out.append(((k,), s))
+            s = Site(bb, None)
+            if c is None:
+                out.append((("call", "<indirect>"), s))
+                continue
+            n = callee_name(c)
+            local = c.get("resolved_local", c["local"]) if "resolved" in c else c["local"]
+            if local or any(n.endswith(x) for x in SIGNIFICANT_STD):
+                v = verdict_at(body.facts, body, s)
+                consts = tuple(a.get("int") for a in t["args"] if a["k"] == "const" and "int" in a)
+                out.append((("call", rename(n), consts, v), s))
     return out
 
 
